@@ -439,6 +439,32 @@ def source_changed():
     return sorted(k for k in set(base) | set(cur) if base.get(k) != cur.get(k))
 
 
+def gen_safely(mod, ctx, crashes, tag):
+    """the input generators run the implementation (to know which views a history holds, which values are valid).  On a
+    broken tree that can raise: keep what was generated, restart the generator on another sub-stream a few times, and
+    record the crash — it is reported as a broken obligation if no failing input is found otherwise."""
+    import traceback
+    out = []
+    for attempt_no in range(12):
+        it = iter(mod.gen_inputs(ctx))
+        crashed = False
+        while True:
+            try:
+                out.append(next(it))
+            except StopIteration:
+                break
+            except Hang:
+                raise
+            except Exception:  # noqa
+                crashes.append(traceback.format_exc()[-1800:])
+                crashed = True
+                break
+        if not crashed:
+            break
+        ctx.rng = random.Random("%s/%d/%s/regen%d" % (ctx.prop, ctx.seed, tag, attempt_no))
+    return out
+
+
 def main(mod, prop, tier, seed, replay=None):
     ctx = Ctx(prop, tier, seed)
     t0 = time.time()
@@ -456,13 +482,14 @@ def main(mod, prop, tier, seed, replay=None):
         if not inputs:
             print("replay file names no input (%s)" % j.get("broken", "?"))
     else:
-        inputs = load_corpus(prop) + list(mod.gen_inputs(ctx))
+        gen_crashes = []
+        inputs = load_corpus(prop) + gen_safely(mod, ctx, gen_crashes, "main")
         changed = source_changed()
         if changed and tier == "quick" and not getattr(mod, "NO_ESCALATE", False):
             # the code differs from the validated tree: two more rounds of generated inputs, other seeds
             for extra in (1, 2):
                 ctx.rng = random.Random("%s/%d/extra%d" % (prop, seed, extra))
-                inputs += list(mod.gen_inputs(ctx))
+                inputs += gen_safely(mod, ctx, gen_crashes, "extra%d" % extra)
             ctx.count("escalated_rounds", 2)
             notes.append("source differs from the validated tree (%s): quick tier escalated to 3 rounds of inputs"
                          % ", ".join(changed))
@@ -556,6 +583,9 @@ def main(mod, prop, tier, seed, replay=None):
         if build_errors:
             nfif.append({"broken": "harness could not run the implementation on an input",
                          "detail": build_errors[:5]})
+        if not replay and gen_crashes:
+            nfif.append({"broken": "the input generator could not run the implementation (it raised on a value / "
+                                   "operation the generator knows to be valid)", "detail": gen_crashes[:3]})
         if m_only:
             nfif.append({"broken": "model-internal observable differs (no property-level difference found)",
                          "detail": m_only[:5]})
